@@ -239,7 +239,7 @@ def reproduces(entry):
     """run a finding's reproducer against the implementation: does the listed failure still show?"""
     rep = entry["reproducer"]
     if rep.get("tool") == "sfw":
-        rc, out, err = sh([SFW] + rep["args"], timeout=600)
+        rc, out, err = sh([SFW] + [a.replace("{VERIF}", VERIF) for a in rep["args"]], timeout=600)
         return re.search(rep["fails_if"], out) is not None, out.strip()[-300:]
     base = os.path.join(WORK, "kf-%d" % os.getpid())
     with open(base + ".ops", "w") as f:
